@@ -474,6 +474,19 @@ impl Leg for Relations {
                     if let Some(e) = edge {
                         recs.push(Rec { id: "edge_multiplicity".into(), desc: None, seq: crate::util::Bytes(e) });
                     }
+                    // oligo, a fifth of the cases: a record with exactly 128 / 256 / 384 / 640 valid windows (frequencies that are
+                    // exact ties at the sixth decimal: c / 128 for odd c) - file and stdin input, presets and thread counts must
+                    // still agree to the byte
+                    if cmd.sub == Sub::Oligo {
+                        let h = crate::util::fnv64(format!("{}:{}:{:?}", recs.len(), cmd.k, cmd.threads).as_bytes());
+                        if h % 5 == 2 {
+                            let windows = [128usize, 256, 384, 640][(h >> 8) as usize % 4];
+                            let mut x = h | 1;
+                            let seq: Vec<u8> = (0..windows + cmd.k as usize - 1).map(|_| { x = crate::util::splitmix(x); b"ACGT"[(x >> 33) as usize & 3] }).collect();
+                            let at = (h >> 16) as usize % (recs.len() + 1);
+                            recs.insert(at, Rec { id: format!("tie{}", windows), desc: None, seq: crate::util::Bytes(seq) });
+                        }
+                    }
                     if recs.is_empty() {
                         recs.push(Rec { id: "only".into(), desc: None, seq: crate::util::Bytes(b"ACGTTGCAAGGCTTAACCGGTTACGATCGATCGGCTA".to_vec()) });
                     }
